@@ -225,6 +225,11 @@ impl Variable {
                 !(self is Mut) ==> r == Err::<MutV, Variable>(self)
     { match self { Variable::Mut(b) => Ok(b), o => Err(o) } }
 
+    pub fn into_string(self) -> (r: Result<Str, Variable>)
+        ensures self is String ==> r == Ok::<Str, Variable>(self->String_0),
+                !(self is String) ==> r == Err::<Str, Variable>(self)
+    { match self { Variable::String(b) => Ok(b), o => Err(o) } }
+
     pub fn into_struct(self) -> (r: Result<StructV, Variable>)
         ensures self is Struct ==> r == Ok::<StructV, Variable>(self->Struct_0),
                 !(self is Struct) ==> r == Err::<StructV, Variable>(self)
